@@ -169,6 +169,33 @@ harness!(se_clear__s8_8g4, se_elem, S8_8G4, El::Clear);
 harness!(se_clear__s8m0_4a, se_elem, S8M0_4A, El::Clear);
 harness!(se_extend1__s8_4a, se_elem, S8_4A, El::Extend1);
 
+/// insert / replace-free element operations on a set with CONCRETE contents (element in bucket i
+/// is i) and a concrete argument: cheap even for implementations whose symbolic version CBMC
+/// cannot digest; complements the symbolic se_elem harnesses above.
+fn se_concrete(sh: Shape, x: u8) {
+    let mut s = set_concrete(sh, 1);
+    let q: u8 = kani::any();
+    let in_q = has(&s, &q);
+    let in_x = has(&s, &x);
+    let n = s.len();
+    assert!(s.contains(&x) == in_x, "[C13] contains() wrong");
+    assert!(s.insert(x) == !in_x, "[C13] insert() returned a wrong flag");
+    assert!(s.len() == n + if in_x { 0 } else { 1 }, "[C13] len() wrong after insert()");
+    assert!(!s.insert(x), "[C13] a second insert() of the same element reported it as new");
+    let sq = scan(s.verif_map(), &q);
+    assert!(sq.val.is_some() == (in_q || q == x), "[C13] the set's contents differ from the reference set's after insert()");
+    assert!(s.take(&x) == Some(x) && !s.contains(&x), "[C13] take() after insert() did not return the element");
+    assert!(s.len() == n - if in_x { 1 } else { 0 }, "[C13] len() wrong after take()");
+    let sq = scan(s.verif_map(), &q);
+    post_inv(s.verif_map(), &sq);
+    kani::cover!(true, "reach: end of harness");
+    core::mem::forget(s);
+}
+harness!(se_concrete__ka_old, se_concrete, K_A, 2);
+harness!(se_concrete__ka_main, se_concrete, K_A, 0);
+harness!(se_concrete__ka_absent, se_concrete, K_A, 9);
+harness!(se_concrete__kd_old, se_concrete, K_D, 6);
+
 /// drain / iter / into_iter of a set
 fn se_iter(sh: Shape, kind: u8) {
     let mut s = set_of(sh, 1);
